@@ -45,7 +45,7 @@ class Fragment:
         self.bare_bool = bare_bool          # bare Bool column as a predicate
         self.bare_bool_fn = bare_bool_fn    # bare boolean function as a predicate
         self.null_left = null_left          # `null eq x`
-        self.dt_offsets = dt_offsets        # "all" | "z" | "naive"
+        self.dt_offsets = dt_offsets        # "all" | "z" | "naive" | "mixed" (Z, offsets and none; metamorphic checks only)
         self.int_spellings = int_spellings
         self.mod = mod
         self.cmp_bool = cmp_bool            # comparisons between Bool-typed terms
@@ -110,7 +110,7 @@ def str_lits(F, wild=True):
 def dt_lits(F):
     def spell(p):
         base, form = p
-        if F.dt_offsets == "naive":
+        if F.dt_offsets == "naive" or (F.dt_offsets == "mixed" and form == 0):
             return ("lit", "datetime", base)
         if F.dt_offsets == "z" or form < 3:
             return ("lit", "datetime", base + "Z")
@@ -374,7 +374,10 @@ def null_test(draw, d, F):
 
 @st.composite
 def in_list(draw, d, F):
-    ty = draw(st.sampled_from(["Int", "Int", "Str", "Str", "Real", "Date"]))
+    tys = ["Int", "Int", "Str", "Str", "Real", "Date", "DateTime"]
+    if "time" in F.funcs:
+        tys.append("Time")
+    ty = draw(st.sampled_from(tys))
     e = draw(expr(ty, min(d, 1), F))
     n = draw(st.sampled_from([1, 2, 2, 3, 3, 4, 4, 1, 2, 3, 12, 40]))
     items = []
